@@ -3,8 +3,9 @@
 (* The pull engine of libzwerg (op.cc, overload.cc, build.cc, scon.hh) as  *)
 (* a transition system -- the MECHANISM layer of DESIGN.md 2.1.            *)
 (*                                                                         *)
-(* Build(ast) transcribes parser.yy + build.cc: one node per op/pred/      *)
-(* stringer object, with the same upstream/origin/branch links.  The       *)
+(* BuildT(tree) transcribes build.cc over the parse tree of Tree.tla (the   *)
+(* grammar actions and tree::simplify): one node per op/pred/stringer      *)
+(* object, with the same upstream/origin/branch links.  The                *)
 (* per-execution state buffer `scon` is the function sc: node -> state     *)
 (* record, DEAD where no state is constructed.  Nx(n, sc) is op::next      *)
 (* of node n, one CASE arm per op class written from op.cc; Con/Des are    *)
@@ -17,207 +18,188 @@
 (*   Lifecycle (C13: get only on live state, con only on dead, all dead    *)
 (*   after destruction).                                                   *)
 (***************************************************************************)
-EXTENDS Progs0
+EXTENDS Progs0, Tree
 
 CONSTANT PinnedMerge    \* TRUE: op_merge as at the pinned commit (m_done never cleared)
 
 -----------------------------------------------------------------------------
 (* node table construction *)
 
-NoBn == <<>>      \* empty function: name -> bind node
-RECURSIVE Concat0(_)
-Concat0(ss) == IF Len(ss) = 0 THEN <<>> ELSE Head(ss) \o Concat0(Tail(ss))
+NoBn == [map |-> <<>>, cur |-> {}]    \* bindings: name -> bind node, and the names bound in the innermost scope
 
 AddNode(st, node) == [st EXCEPT !.ops = Append(@, node)]
 LastId(st) == Len(st.ops)
 
-\* the BIND nodes of an id block: the parser stores the ids reversed, so the
-\* rightmost id is bound first (to TOS)
-RECURSIVE BuildBinds(_, _, _, _)
-BuildBinds(ids, up, st, bn) ==
-    IF Len(ids) = 0 THEN [st |-> st, top |-> up, bn |-> bn]
-    ELSE LET st1 == AddNode(st, [k |-> "bind", up |-> up])
-             id == LastId(st1)
-         IN BuildBinds(Front(ids), id, st1, (Last(ids) :> id) @@ bn)
-
-RECURSIVE AltBranches(_)
-AltBranches(p) ==
-    CASE p.k = "alt" -> AltBranches(p.a) \o AltBranches(p.b)
-      [] p.k = "opt" -> AltBranches(p.a) \o <<Emp>>
-      [] OTHER -> <<p>>
+KnownWords == {"dup", "drop", "swap", "over", "rot", "length", "elem", "relem", "value", "pos", "type", "hex", "dec", "oct", "bin"} \cup ArithWords
+PredWords == CmpWords \cup {"?empty", "!empty", "?find", "!find", "?starts", "!starts", "?ends", "!ends"}
+InfixOps == {"==", "!=", "<", ">", "<=", ">="}
 
 \* `uv' is the up-value table of the enclosing block (uprefs): the names it has referenced from
-\* outside so far, in the order of their ids.  Build returns [st, top, bn, uv].
+\* outside so far, in the order of their ids; `outer' the user names visible from outside the block.
 UvId(uv, name) == IF \E i \in 1..Len(uv) : uv[i] = name THEN (CHOOSE i \in 1..Len(uv) : uv[i] = name) - 1 ELSE Len(uv)
 UvAdd(uv, name) == IF \E i \in 1..Len(uv) : uv[i] = name THEN uv ELSE Append(uv, name)
 
-RECURSIVE Build(_, _, _, _, _)
-RECURSIVE BuildFmt(_, _, _, _, _, _)
-RECURSIVE BuildTines(_, _, _, _, _, _, _)
+\* build_exec / build_pred of build.cc over the parse tree (Tree.tla).  The bindings `bn' are passed by
+\* reference in the code: only a SCOPE node gives its child a nested set.  Result: [st, top, bn, uv, err];
+\* err: the exceptions of bindings::bind (rebinding in the same scope) and of READ (unbound name).
+RECURSIVE BuildT(_, _, _, _, _, _)
+RECURSIVE BuildCat(_, _, _, _, _, _, _, _)
+RECURSIVE BuildPred(_, _, _, _, _)
+RECURSIVE BuildTinesT(_, _, _, _, _, _, _, _, _)
+RECURSIVE BuildOrT(_, _, _, _, _, _, _, _)
+RECURSIVE BuildFmtT(_, _, _, _, _, _, _, _)
 RECURSIVE BuildCaptures(_, _, _, _, _, _)
-Build(p, up, st, bn, uv) ==
-    LET same(st1) == [st |-> st1, top |-> LastId(st1), bn |-> bn, uv |-> uv]
-        sameU(st1, uv1) == [st |-> st1, top |-> LastId(st1), bn |-> bn, uv |-> uv1]
-        sub(a, st0, uv0) ==       \* a sub-chain with its own origin and scope
-            LET st1 == AddNode(st0, [k |-> "origin"])
-                o == LastId(st1)
-                r == Build(a, o, st1, bn, uv0)
-            IN [st |-> r.st, origin |-> o, op |-> r.top, uv |-> r.uv]
-        \* a block: body built against a fresh frame and a fresh up-value table, then the captured
-        \* values are pushed (highest id first) and op_lex_closure pops them
-        block(ids, a, up0, st0, uv0) ==
-            LET st1 == AddNode(st0, [k |-> "origin"])
-                o == LastId(st1)
-                r == Build(Scope(ids, a), o, st1, NoBn, <<>>)
-                caps == BuildCaptures(r.uv, Len(r.uv), up0, r.st, bn, uv0)
-                st2 == AddNode(caps.st, [k |-> "lexclo", up |-> caps.top, n |-> Len(r.uv), origin |-> o, op |-> r.top])
-            IN [st |-> st2, top |-> LastId(st2), uv |-> caps.uv]
-    IN
-    CASE p.k = "emp" -> same(AddNode(st, [k |-> "nop", up |-> up]))
-      [] p.k = "lit" -> same(AddNode(st, [k |-> "const", up |-> up, v |-> IntV(p.n)]))
-      [] p.k = "elist" -> same(AddNode(st, [k |-> "const", up |-> up, v |-> SeqV(<<>>)]))
-      [] p.k = "str" -> same(AddNode(st, [k |-> "const", up |-> up, v |-> StrV(p.w)]))
-      [] p.k = "word" ->
-            IF p.w \in CmpWords \cup {"?empty", "!empty", "?find", "!find", "?starts", "!starts", "?ends", "!ends"}
-            THEN LET st1 == AddNode(st, [k |-> "pword", w |-> p.w])
-                 IN same(AddNode(st1, [k |-> "assert", up |-> up, pred |-> LastId(st1)]))
-            ELSE IF p.w = "apply" THEN same(AddNode(st, [k |-> "apply", up |-> up, skip |-> FALSE]))
-            ELSE same(AddNode(st, [k |-> "word", up |-> up, w |-> p.w]))
-      [] p.k = "posw" ->
-            LET st1 == AddNode(st, [k |-> "ppos", n |-> p.n])
-                st2 == IF p.p THEN st1 ELSE AddNode(st1, [k |-> "pnot", a |-> LastId(st1)])
-            IN same(AddNode(st2, [k |-> "assert", up |-> up, pred |-> LastId(st2)]))
-      [] p.k = "name" ->
-            \* READ: a name of this frame, or an up-value of the enclosing block; then op_apply (skip non-closures)
-            IF p.w \in DOMAIN bn
-            THEN LET st1 == AddNode(st, [k |-> "read", up |-> up, src |-> bn[p.w]])
-                 IN same(AddNode(st1, [k |-> "apply", up |-> LastId(st1), skip |-> TRUE]))
-            ELSE LET st1 == AddNode(st, [k |-> "upread", up |-> up, id |-> UvId(uv, p.w)])
-                 IN sameU(AddNode(st1, [k |-> "apply", up |-> LastId(st1), skip |-> TRUE]), UvAdd(uv, p.w))
-      [] p.k = "cat" ->
-            LET r == Build(p.a, up, st, bn, uv) IN Build(p.b, r.top, r.st, r.bn, r.uv)
-      [] p.k \in {"alt", "opt"} ->
-            \* ALT: a merge with one tine per branch; nested ALTs are flattened by
-            \* tree::create_cat; E? is ALT (E, NOP)
-            LET brs == AltBranches(p)
-                st0 == AddNode(st, [k |-> "merge", up |-> up, branches |-> <<>>])
+Res(st, top, bn, uv, err) == [st |-> st, top |-> top, bn |-> bn, uv |-> uv, err |-> err]
+\* an op with a sub-chain on its own origin (CAPTURE, SUBX_EVAL, closures, branches, splices)
+SubChain(t, st, bn, uv, outer) ==
+    LET st1 == AddNode(st, [k |-> "origin"])
+        o == LastId(st1)
+        r == BuildT(t, o, st1, bn, uv, outer)
+    IN [st |-> r.st, origin |-> o, op |-> r.top, bn |-> r.bn, uv |-> r.uv, err |-> r.err]
+
+BuildT(t, up, st, bn, uv, outer) ==
+    LET leaf(node) == LET st1 == AddNode(st, node) IN Res(st1, LastId(st1), bn, uv, FALSE) IN
+    CASE t.tt = "CAT" -> BuildCat(t.ch, 1, up, st, bn, uv, outer, FALSE)
+      [] t.tt = "ALT" ->
+            LET st0 == AddNode(st, [k |-> "merge", up |-> up, branches |-> <<>>])
                 m == LastId(st0)
-                r == BuildTines(brs, 1, m, st0, bn, <<>>, uv)
+                r == BuildTinesT(t.ch, 1, m, st0, bn, <<>>, uv, outer, FALSE)
                 fin == [r.st EXCEPT !.ops[m].branches = r.tops]
-            IN [st |-> fin, top |-> m, bn |-> bn, uv |-> r.uv]
-      [] p.k = "or" ->
+            IN Res(fin, m, r.bn, r.uv, r.err)
+      [] t.tt = "OR" ->
             LET st0 == AddNode(st, [k |-> "or", up |-> up, branches |-> <<>>])
                 o == LastId(st0)
-                s1 == sub(p.a, st0, uv)
-                s2 == sub(p.b, s1.st, s1.uv)
-                fin == [s2.st EXCEPT !.ops[o].branches =
-                           <<[o |-> s1.origin, op |-> s1.op], [o |-> s2.origin, op |-> s2.op]>>]
-            IN [st |-> fin, top |-> o, bn |-> bn, uv |-> s2.uv]
-      [] p.k = "scope" ->
-            IF Len(p.ids) = 0 THEN Build(p.a, up, st, bn, uv)      \* plain parentheses: no scope
-            ELSE LET b == BuildBinds(p.ids, up, st, bn)
-                     r == Build(p.a, b.top, b.st, b.bn, uv)
-                 IN [st |-> r.st, top |-> r.top, bn |-> bn, uv |-> r.uv]
-      [] p.k = "cap" ->
-            LET b == BuildBinds(p.ids, up, st, bn)
-                st1 == AddNode(b.st, [k |-> "origin"])
-                o == LastId(st1)
-                r == Build(p.a, o, st1, b.bn, uv)
-            IN sameU(AddNode(r.st, [k |-> "capture", up |-> b.top, origin |-> o, op |-> r.top]), r.uv)
-      [] p.k = "sub" ->
+                r == BuildOrT(t.ch, 1, st0, bn, <<>>, uv, outer, FALSE)
+                fin == [r.st EXCEPT !.ops[o].branches = r.brs]
+            IN Res(fin, o, r.bn, r.uv, r.err)
+      [] t.tt = "NOP" -> leaf([k |-> "nop", up |-> up])
+      [] t.tt = "F_BUILTIN" ->       \* a position assertion: build_pred gives a pred, so op_assert
+            LET st1 == AddNode(st, [k |-> "ppos", n |-> t.n])
+                st2 == IF t.x[2] = "?" THEN st1 ELSE AddNode(st1, [k |-> "pnot", a |-> LastId(st1)])
+                st3 == AddNode(st2, [k |-> "assert", up |-> up, pred |-> LastId(st2)])
+            IN Res(st3, LastId(st3), bn, uv, FALSE)
+      [] t.tt = "ASSERT" ->
+            LET pr == BuildPred(t.ch[1], st, bn, uv, outer)
+                st1 == AddNode(pr.st, [k |-> "assert", up |-> up, pred |-> pr.top])
+            IN Res(st1, LastId(st1), pr.bn, pr.uv, pr.err)
+      [] t.tt = "FORMAT" ->
+            LET st1 == AddNode(st, [k |-> "sorigin"])
+                so == LastId(st1)
+                r == BuildFmtT(t.ch, Len(t.ch), so, st1, bn, uv, outer, FALSE)
+                st2 == AddNode(r.st, [k |-> "format", up |-> up, sorigin |-> so, stringer |-> r.top])
+            IN Res(st2, LastId(st2), r.bn, r.uv, r.err)
+      [] t.tt = "CONST" -> leaf([k |-> "const", up |-> up, v |-> IntV(t.n)])
+      [] t.tt = "STR" -> leaf([k |-> "const", up |-> up, v |-> StrV(t.x)])
+      [] t.tt = "EMPTY_LIST" -> leaf([k |-> "const", up |-> up, v |-> SeqV(<<>>)])
+      [] t.tt = "CAPTURE" ->
+            LET s == SubChain(t.ch[1], st, bn, uv, outer)
+                st1 == AddNode(s.st, [k |-> "capture", up |-> up, origin |-> s.origin, op |-> s.op])
+            IN Res(st1, LastId(st1), s.bn, s.uv, s.err)
+      [] t.tt = "SUBX_EVAL" ->
+            LET s == SubChain(t.ch[1], st, bn, uv, outer)
+                st1 == AddNode(s.st, [k |-> "subx", up |-> up, origin |-> s.origin, op |-> s.op, keep |-> t.n])
+            IN Res(st1, LastId(st1), s.bn, s.uv, s.err)
+      [] t.tt \in {"CLOSE_STAR", "CLOSE_PLUS"} ->
+            LET s == SubChain(t.ch[1], st, bn, uv, outer)
+                st1 == AddNode(s.st, [k |-> "closure", up |-> up, origin |-> s.origin, op |-> s.op,
+                                      plus |-> (t.tt = "CLOSE_PLUS")])
+            IN Res(st1, LastId(st1), s.bn, s.uv, s.err)
+      [] t.tt = "SCOPE" ->          \* bindings scope {bn}
+            LET r == BuildT(t.ch[1], up, st, [map |-> bn.map, cur |-> {}], uv, outer)
+            IN Res(r.st, r.top, bn, r.uv, r.err)
+      [] t.tt = "BLOCK" ->
+            \* the body against a fresh frame and a fresh up-value table; then the captured values are
+            \* pushed, highest id first, and op_lex_closure pops them
             LET st1 == AddNode(st, [k |-> "origin"])
                 o == LastId(st1)
-                b == BuildBinds(p.ids, o, st1, bn)
-                r == Build(p.a, b.top, b.st, b.bn, uv)
-                st2 == AddNode(r.st, [k |-> "psubx", origin |-> o, op |-> r.top])
-                st3 == IF p.w = "?" THEN st2 ELSE AddNode(st2, [k |-> "pnot", a |-> LastId(st2)])
-            IN sameU(AddNode(st3, [k |-> "assert", up |-> up, pred |-> LastId(st3)]), r.uv)
-      [] p.k = "infix" ->
-            \* ?(let ~a~ := A; let ~b~ := B; ~a~ ~b~ OP)
-            LET st1 == AddNode(st, [k |-> "origin"])
-                o == LastId(st1)
-                sa == sub(p.a, st1, uv)
-                xa == AddNode(sa.st, [k |-> "subx", up |-> o, origin |-> sa.origin,
-                                      op |-> sa.op, keep |-> 1])
-                ba == AddNode(xa, [k |-> "bind", up |-> LastId(xa)])
-                ida == LastId(ba)
-                sb == sub(p.b, ba, sa.uv)
-                xb == AddNode(sb.st, [k |-> "subx", up |-> ida, origin |-> sb.origin,
-                                      op |-> sb.op, keep |-> 1])
-                bb == AddNode(xb, [k |-> "bind", up |-> LastId(xb)])
-                idb == LastId(bb)
-                ra == AddNode(bb, [k |-> "read", up |-> idb, src |-> ida])
-                rb == AddNode(ra, [k |-> "read", up |-> LastId(ra), src |-> idb])
-                pw == AddNode(rb, [k |-> "pword", w |-> InfixWord(p.w)])
-                as == AddNode(pw, [k |-> "assert", up |-> LastId(rb), pred |-> LastId(pw)])
-                ps == AddNode(as, [k |-> "psubx", origin |-> o, op |-> LastId(as)])
-            IN sameU(AddNode(ps, [k |-> "assert", up |-> up, pred |-> LastId(ps)]), sb.uv)
-      [] p.k = "let" ->
-            LET s == sub(p.a, st, uv)
-                x == AddNode(s.st, [k |-> "subx", up |-> up, origin |-> s.origin, op |-> s.op,
-                                    keep |-> Len(p.ids)])
-                b == BuildBinds(p.ids, LastId(x), x, bn)
-            IN [st |-> b.st, top |-> b.top, bn |-> b.bn, uv |-> s.uv]
-      [] p.k = "if" ->
-            LET c == sub(p.c, st, uv)
-                t == sub(p.a, c.st, c.uv)
-                e == sub(p.b, t.st, t.uv)
-            IN sameU(AddNode(e.st, [k |-> "ifelse", up |-> up,
-                                    co |-> c.origin, cop |-> c.op, to |-> t.origin, top |-> t.op,
-                                    eo |-> e.origin, eop |-> e.op]), e.uv)
-      [] p.k \in {"star", "plus"} ->
-            LET s == sub(p.a, st, uv) IN
-            sameU(AddNode(s.st, [k |-> "closure", up |-> up, origin |-> s.origin, op |-> s.op,
-                                 plus |-> (p.k = "plus")]), s.uv)
-      [] p.k = "fmt" ->
-            \* a format string without splices is simplified to a string constant
-            IF \A i \in 1..Len(p.parts) : "lit" \in DOMAIN p.parts[i]
-            THEN same(AddNode(st, [k |-> "const", up |-> up,
-                                   v |-> StrV(Concat0([i \in 1..Len(p.parts) |-> p.parts[i].lit]))]))
-            ELSE LET st1 == AddNode(st, [k |-> "sorigin"])
-                     so == LastId(st1)
-                     r == BuildFmt(p.parts, Len(p.parts), so, st1, bn, uv)
-                 IN sameU(AddNode(r.st, [k |-> "format", up |-> up, sorigin |-> so, stringer |-> r.top]), r.uv)
-      [] p.k = "block" ->
-            LET b == block(p.ids, p.a, up, st, uv) IN [st |-> b.st, top |-> b.top, bn |-> bn, uv |-> b.uv]
-      [] p.k = "bapply" ->
-            LET b == block(<<>>, p.a, up, st, uv) IN
-            sameU(AddNode(b.st, [k |-> "apply", up |-> b.top, skip |-> FALSE]), b.uv)
-      [] p.k = "letf" -> Build(Let(<<p.w>>, Block(<<>>, p.a)), up, st, bn, uv)
+                r == BuildT(t.ch[1], o, st1, NoBn, <<>>, outer \cup DOMAIN bn.map)
+                caps == BuildCaptures(r.uv, Len(r.uv), up, r.st, bn, uv)
+                st2 == AddNode(caps.st, [k |-> "lexclo", up |-> caps.top, n |-> Len(r.uv), origin |-> o, op |-> r.top])
+            IN Res(st2, LastId(st2), bn, caps.uv, r.err)
+      [] t.tt = "BIND" ->
+            LET st1 == AddNode(st, [k |-> "bind", up |-> up])
+                id == LastId(st1)
+                name == t.x[1]
+            IN Res(st1, id, [map |-> (name :> id) @@ bn.map, cur |-> bn.cur \cup {name}], uv, name \in bn.cur)
+      [] t.tt = "READ" ->
+            LET w == t.x[1] IN
+            IF w \in DOMAIN bn.map                 \* a name of this frame: op_read, then op_apply (skip non-closures)
+            THEN LET st1 == AddNode(st, [k |-> "read", up |-> up, src |-> bn.map[w]])
+                     st2 == AddNode(st1, [k |-> "apply", up |-> LastId(st1), skip |-> TRUE])
+                 IN Res(st2, LastId(st2), bn, uv, FALSE)
+            ELSE IF w \in outer                    \* an up-value of the enclosing block
+            THEN LET st1 == AddNode(st, [k |-> "upread", up |-> up, id |-> UvId(uv, w)])
+                     st2 == AddNode(st1, [k |-> "apply", up |-> LastId(st1), skip |-> TRUE])
+                 IN Res(st2, LastId(st2), bn, UvAdd(uv, w), FALSE)
+            \* builtins: a predicate becomes an assertion, anything else its own op
+            ELSE IF w \in PredWords \cup InfixOps
+            THEN LET st1 == AddNode(st, [k |-> "pword", w |-> IF w \in InfixOps THEN InfixWord(w) ELSE w])
+                     st2 == AddNode(st1, [k |-> "assert", up |-> up, pred |-> LastId(st1)])
+                 IN Res(st2, LastId(st2), bn, uv, FALSE)
+            ELSE IF w = "apply" THEN leaf([k |-> "apply", up |-> up, skip |-> FALSE])
+            ELSE IF w \in KnownWords THEN leaf([k |-> "word", up |-> up, w |-> w])
+            ELSE [leaf([k |-> "nop", up |-> up]) EXCEPT !.err = TRUE]      \* Attempt to read an unbound name
+      [] t.tt = "IFELSE" ->
+            LET c == SubChain(t.ch[1], st, bn, uv, outer)
+                th == SubChain(t.ch[2], c.st, c.bn, c.uv, outer)
+                el == SubChain(t.ch[3], th.st, th.bn, th.uv, outer)
+                st1 == AddNode(el.st, [k |-> "ifelse", up |-> up, co |-> c.origin, cop |-> c.op,
+                                       to |-> th.origin, top |-> th.op, eo |-> el.origin, eop |-> el.op])
+            IN Res(st1, LastId(st1), el.bn, el.uv, c.err \/ th.err \/ el.err)
+
+BuildCat(ch, j, up, st, bn, uv, outer, err) ==
+    IF j > Len(ch) THEN Res(st, up, bn, uv, err)
+    ELSE LET r == BuildT(ch[j], up, st, bn, uv, outer)
+         IN BuildCat(ch, j + 1, r.top, r.st, r.bn, r.uv, outer, err \/ r.err)
+
+BuildPred(t, st, bn, uv, outer) ==
+    CASE t.tt = "PRED_NOT" ->
+            LET r == BuildPred(t.ch[1], st, bn, uv, outer)
+                st1 == AddNode(r.st, [k |-> "pnot", a |-> r.top])
+            IN Res(st1, LastId(st1), r.bn, r.uv, r.err)
+      [] t.tt = "PRED_SUBX_ANY" ->
+            LET s == SubChain(t.ch[1], st, bn, uv, outer)
+                st1 == AddNode(s.st, [k |-> "psubx", origin |-> s.origin, op |-> s.op])
+            IN Res(st1, LastId(st1), s.bn, s.uv, s.err)
 
 \* the captured values of a block, pushed from the highest id down: a name of the enclosing frame is
 \* read directly, anything else is an up-value of the enclosing block
 BuildCaptures(names, j, up, st, bn, uv) ==
     IF j = 0 THEN [st |-> st, top |-> up, uv |-> uv]
-    ELSE IF names[j] \in DOMAIN bn
-    THEN LET st1 == AddNode(st, [k |-> "read", up |-> up, src |-> bn[names[j]]])
+    ELSE IF names[j] \in DOMAIN bn.map
+    THEN LET st1 == AddNode(st, [k |-> "read", up |-> up, src |-> bn.map[names[j]]])
          IN BuildCaptures(names, j - 1, LastId(st1), st1, bn, uv)
     ELSE LET st1 == AddNode(st, [k |-> "upread", up |-> up, id |-> UvId(uv, names[j])])
          IN BuildCaptures(names, j - 1, LastId(st1), st1, bn, UvAdd(uv, names[j]))
 
-BuildTines(brs, j, m, st, bn, tops, uv) ==
-    IF j > Len(brs) THEN [st |-> st, tops |-> tops, uv |-> uv]
+BuildTinesT(ch, j, m, st, bn, tops, uv, outer, err) ==
+    IF j > Len(ch) THEN [st |-> st, tops |-> tops, bn |-> bn, uv |-> uv, err |-> err]
     ELSE LET t == AddNode(st, [k |-> "tine", merge |-> m, idx |-> j])
-             r == Build(brs[j], LastId(t), t, bn, uv)
-         IN BuildTines(brs, j + 1, m, r.st, bn, Append(tops, r.top), r.uv)
+             r == BuildT(ch[j], LastId(t), t, bn, uv, outer)
+         IN BuildTinesT(ch, j + 1, m, r.st, r.bn, Append(tops, r.top), r.uv, outer, err \/ r.err)
+
+BuildOrT(ch, j, st, bn, brs, uv, outer, err) ==
+    IF j > Len(ch) THEN [st |-> st, brs |-> brs, bn |-> bn, uv |-> uv, err |-> err]
+    ELSE LET s == SubChain(ch[j], st, bn, uv, outer)
+         IN BuildOrT(ch, j + 1, s.st, s.bn, Append(brs, [o |-> s.origin, op |-> s.op]), s.uv, outer, err \/ s.err)
 
 \* stringers are chained from the last part (next to the origin) to the first
-BuildFmt(parts, j, sup, st, bn, uv) ==
-    IF j = 0 THEN [st |-> st, top |-> sup, uv |-> uv]
-    ELSE IF "lit" \in DOMAIN parts[j]
-    THEN LET st1 == AddNode(st, [k |-> "slit", up |-> sup, str |-> parts[j].lit])
-         IN BuildFmt(parts, j - 1, LastId(st1), st1, bn, uv)
-    ELSE LET st1 == AddNode(st, [k |-> "origin"])
-             o == LastId(st1)
-             r == Build(parts[j].e, o, st1, bn, uv)
-             st2 == AddNode(r.st, [k |-> "sop", up |-> sup, origin |-> o, op |-> r.top])
-         IN BuildFmt(parts, j - 1, LastId(st2), st2, bn, r.uv)
+BuildFmtT(ch, j, sup, st, bn, uv, outer, err) ==
+    IF j = 0 THEN Res(st, sup, bn, uv, err)
+    ELSE IF ch[j].tt = "STR"
+    THEN LET st1 == AddNode(st, [k |-> "slit", up |-> sup, str |-> ch[j].x])
+         IN BuildFmtT(ch, j - 1, LastId(st1), st1, bn, uv, outer, err)
+    ELSE LET s == SubChain(ch[j], st, bn, uv, outer)
+             st2 == AddNode(s.st, [k |-> "sop", up |-> sup, origin |-> s.origin, op |-> s.op])
+         IN BuildFmtT(ch, j - 1, LastId(st2), st2, s.bn, s.uv, outer, err \/ s.err)
 
-\* A whole query: origin first, as zw_query_parse does.
-BuildQuery(p) ==
-    LET st0 == AddNode([ops |-> <<>>], [k |-> "origin"])
-        r == Build(p, 1, st0, NoBn, <<>>)
-    IN [ops |-> r.st.ops, root |-> r.top]
+\* A whole query: origin first, as zw_query_parse does; `simp': with tree::simplify (the default)
+BuildQueryT(t) ==
+    LET st0 == [ops |-> <<[k |-> "origin"]>>]
+        r == BuildT(t, 1, st0, NoBn, <<>>, {})
+    IN [ops |-> r.st.ops, root |-> r.top, err |-> r.err]
+BuildQuery(p) == BuildQueryT(Simplify(TreeOf(p)))
+BuildQueryNoSimp(p) == BuildQueryT(TreeOf(p))
 
 -----------------------------------------------------------------------------
 (* the state buffer *)
@@ -271,10 +253,7 @@ Con(ops, n, m) ==
       [] node.k = "merge" ->
             Con(ops, node.up, ConSeq(ops, node.branches, 1, ConOwn(ops, n, m)))
       [] node.k = "or" ->
-            LET m1 == ConOwn(ops, n, m)
-                m2 == Con(ops, node.branches[1].op, m1)
-                m3 == Con(ops, node.branches[2].op, m2)
-            IN Con(ops, node.up, m3)
+            Con(ops, node.up, ConSeq(ops, [i \in 1..Len(node.branches) |-> node.branches[i].op], 1, ConOwn(ops, n, m)))
       [] node.k = "capture" -> Con(ops, node.up, Con(ops, node.op, m))
       [] node.k \in {"subx", "closure"} ->
             Con(ops, node.up, Con(ops, node.op, ConOwn(ops, n, m)))
@@ -302,10 +281,7 @@ Des(ops, n, m) ==
       [] node.k = "merge" ->
             DesOwn(ops, n, DesSeq(ops, node.branches, 1, Des(ops, node.up, m)))
       [] node.k = "or" ->
-            LET m1 == Des(ops, node.up, m)
-                m2 == Des(ops, node.branches[1].op, m1)
-                m3 == Des(ops, node.branches[2].op, m2)
-            IN DesOwn(ops, n, m3)
+            DesOwn(ops, n, DesSeq(ops, [i \in 1..Len(node.branches) |-> node.branches[i].op], 1, Des(ops, node.up, m)))
       [] node.k = "capture" -> Des(ops, node.op, Des(ops, node.up, m))
       [] node.k \in {"subx", "closure"} ->
             DesOwn(ops, n, Des(ops, node.op, Des(ops, node.up, m)))
@@ -633,5 +609,6 @@ NormStk(s) == [i \in 1..Len(s) |-> NormV(s[i])]
 NormOut(o) == [i \in 1..Len(o) |-> NormStk(o[i])]
 
 EngineRun(p) == LET qq == BuildQuery(p) IN PullAll(qq, FreshMach(qq), <<>>)
+EngineRunNoSimp(p) == LET qq == BuildQueryNoSimp(p) IN PullAll(qq, FreshMach(qq), <<>>)
 
 =============================================================================
